@@ -469,7 +469,25 @@ func (c *Ctx) allSumNil(v ssa.Value, seen map[ssa.Value]bool) bool {
 		}
 		return true
 	case *ssa.Call:
-		return x.Call.IsInvoke() && x.Call.Method.Name() == "Sum" && isHashHash(x.Call.Value.Type()) && isNilConst(x.Call.Args[0])
+		if !(x.Call.IsInvoke() && x.Call.Method.Name() == "Sum" && isHashHash(x.Call.Value.Type())) {
+			return false
+		}
+		// Sum(nil), or Sum onto an empty slice of storage that belongs to this call (a local array cut to [:0], a
+		// fresh make([]byte, 0, n)): the result is the digest alone
+		arg := x.Call.Args[0]
+		if isNilConst(arg) {
+			return true
+		}
+		if mk, ok := arg.(*ssa.MakeSlice); ok {
+			return emptySliceValue(mk, 0)
+		}
+		if sl, ok := arg.(*ssa.Slice); ok && emptySliceValue(sl, 0) {
+			if al, ok := sl.X.(*ssa.Alloc); ok {
+				_, isArr := arrayLen(al.Type())
+				return isArr
+			}
+		}
+		return false
 	}
 	return false
 }
